@@ -19,7 +19,9 @@ CLAIMED = {
         "Hypothesis type-directed generation (type grammar x construct-then-mutate values) against a reference interpreter (three-valued oracle), with determinism re-evaluation on a fresh equal type",
         "Searches the type-expression x value space with a grammar-based generator and compares every from_data verdict and result "
         "(deep exact-type comparison) with an independent reference interpreter of the documented rules; failures are bucketed by the "
-        "smallest failing sub-type. Evidence that the property held on everything explored, with the class histogram of what was explored.",
+        "smallest failing sub-type; independently of the verdict oracle (also in its unspecified cells) every returned value must be shaped like an "
+        "image of T at every depth (pv/typed.py: exactly int where int is declared, list for List, ...). Evidence that the property held on "
+        "everything explored, with the class histogram of what was explored.",
         "Trusts the reference interpreter (pv/tg.py, pv/cg.py), stdlib constructors, and the list of unspecified cells in DESIGN.md section 2.",
         "DESIGN.md section 5, C01",
     ),
@@ -69,7 +71,8 @@ CLAIMED = {
         "Hypothesis multi-fault mutation of type-directed values; metamorphic oracle by structural induction (each child tree = the element type's own tree) + class model for missing/extra/duplicate sets",
         "For every rejected generated (type, value): product nodes are keyed by exactly the positions/keys whose element is rejected on its own and "
         "each child equals that element's own tree; missing/extra equal the model's sets; unions report one alternative per built member in order, "
-        "each equal to the member's own tree; tagged unions report the selected variant's tree; leaves record the offending sub-value.",
+        "each equal to the member's own tree; tagged unions report the selected variant's tree; leaves record the offending sub-value. A second suite "
+        "resolves the unspecified python-name-as-key cell by observation: the tree must describe the same key-naming relation the fast path uses.",
         "Element trees come from pane itself (composition is what is checked; verdicts are C01's). Trusts pv/errtree.py tree equality and the class model's key tables.",
         "DESIGN.md section 5, C07",
     ),
@@ -84,15 +87,15 @@ CLAIMED = {
     'C09': (
         "Hypothesis type-directed generation with recording spy containers; before/after deep-snapshot oracle",
         "For every generated (type, value) of both verdicts, every dict/list in the value is a spy subclass recording mutator calls; a deep "
-        "snapshot (types, contents, key order) before must equal the one after from_data, convert, Cls.from_data, keyword construction, and "
-        "into_data must leave the typed value unchanged.",
+        "snapshot (types, contents, key order) before must equal the one after from_data, convert, Cls.from_data, keyword and positional "
+        "construction, make_unchecked and from_dict_unchecked (defaulted fields left out), and into_data must leave the typed value unchanged.",
         "A mutation through C-level dict/list APIs that bypass subclass methods is seen by the snapshot only.",
         "DESIGN.md section 5, C09",
     ),
     'C10': (
-        "Hypothesis stateful testing (RuleBasedStateMachine over build / convert / temporary-literal / drop / gc / handlers / memo-vs-fresh / 4-thread batch / mass subscription); reference-interpreter oracle per step; second model-based machine for KeyCache",
+        "Hypothesis stateful testing (RuleBasedStateMachine over build / convert / convert-modify-result-convert-again / temporary-literal / drop / gc / handlers / memo-vs-fresh / 4-thread batch / mass subscription); reference-interpreter oracle per step; second model-based machine for KeyCache",
         "Histories of up to 50 (thorough 120) operations on short-lived type objects; every conversion outcome must equal the reference verdict for "
-        "(spec, value), the memoised converter must behave like one built past the cache, interleaved calls with different call-level handlers must "
+        "(spec, value) - also after the caller has modified every container of an earlier result -, the memoised converter must behave like one built past the cache, interleaved calls with different call-level handlers must "
         "each follow their own handlers, and KeyCache (unbounded and LRU maxsize 1-4) must always return f(args) and respect maxsize. "
         "Histories are plain data and replay without Hypothesis.",
         "The harness does not own the thread schedule (stress only) nor the allocator (id-reuse events are measured and reported, not forced).",
@@ -100,8 +103,9 @@ CLAIMED = {
     ),
     'C11': (
         "Hypothesis generation of overlapping unions; metamorphic oracle against pane's own member conversions (left-most accepting member), spelling-independence, and member-consistent serialisation; reference index cross-check",
-        "Unions of 2-5 overlapping members in five spellings: the union accepts iff a member accepts, returns exactly the left-most accepting "
-        "member's result, every spelling agrees, and into_data uses what a member accepting the typed value writes (or the documented runtime-type fallback).",
+        "Unions of 2-5 overlapping members (numeric, text-parsed, subclass-related image types, tagged unions as members, arrays next to literals) in five spellings: the union accepts iff a member accepts, returns exactly the left-most accepting "
+        "member's result, every spelling agrees, and into_data uses what a member accepting the typed value writes - a member counts as accepting when its "
+        "fast pass recognises the value or its own serialisation reads back as the value; only when no member does is the runtime-type fallback admitted.",
         "Member verdicts are pane's own (checked by C01); the reference index is compared only where specified.",
         "DESIGN.md section 5, C11",
     ),
@@ -118,7 +122,8 @@ CLAIMED = {
         "Condition expressions (stock conditions with generated thresholds, & | ~, Condition.all/any, 1-3 conditions per annotation, user and raising "
         "predicates, shape/broadcastable) over scalar, sized, array and nested inner types, with values at, next to and away from every threshold: "
         "accept iff the inner type accepts and the independent evaluator holds; the value is returned unchanged; a raising predicate yields ConvertError "
-        "with a cause; into_data ignores conditions.",
+        "with a cause; into_data ignores conditions. Pairs of expressions that read alike when flattened but nest differently sit in one type "
+        "(each position must enforce its own predicate); the stock conditions x combinators x boundary values table and the shipped aliases are enumerated.",
         "Trusts the evaluator in pv/tg.py (cond_eval, 6-line broadcasting rule) and Python comparison semantics.",
         "DESIGN.md section 5, C13",
     ),
@@ -142,7 +147,8 @@ CLAIMED = {
         "exhaustive enumeration of the 96-point option cube + Hypothesis over per-field flags and instance triples; differential oracle against dataclasses.dataclass for the hash rule table, algebraic laws for ==/order/hash, model oracle for frozen/copy/replace/repr",
         "Every (eq, order, frozen, unsafe_hash, explicit __hash__, user __eq__) point is built both as a pane dataclass and as a standard "
         "dataclass and must land in the same hash category; equality/ordering are checked against the compare-fields model (reflexive, symmetric, "
-        "transitive on triples, lexicographic, trichotomy, eq implies equal hash); frozen, copy, deepcopy, __replace__ and repr are checked against the model.",
+        "transitive on triples, lexicographic, trichotomy, eq implies equal hash); frozen, copy, deepcopy, __replace__ and repr are checked against the model; "
+        "generated hash / modify / copy / set-lookup histories over five legitimately mutable configurations require equal instances to hash equal at every moment.",
         "Trusts the standard library's dataclass hash table as the reference. Field values are totally ordered and NaN-free.",
         "DESIGN.md section 5, C16",
     ),
@@ -157,7 +163,7 @@ CLAIMED = {
     'C18': (
         "Hypothesis enumeration-by-sampling of subsets of the seven handler sources x call forms x positions x directions; oracle = the documented precedence order coded as a list, observed through source-labelled converters",
         "Every source converts the marker type to a value naming the source; the observed label at each position (direct field, List, Dict, Optional, "
-        "Tuple, nested dataclass, subclass, top-level container) and in both directions must be the first present source in the documented order; "
+        "Tuple, nested dataclass, subclass, top-level container, inside a third-party generic container served by a registered handler) and in both directions must be the first present source in the documented order; "
         "declining handlers (NotImplemented / NotImplementedError) are skipped; mapping-form handlers match only the exact unparameterised type; "
         "global handlers sit after the scalar built-ins and the protocol, before structural built-ins.",
         "A fresh marker class per case keeps the converter cache out of the picture; one global dispatcher is registered per process.",
